@@ -257,12 +257,13 @@ Non-trivial = text with a character the normaliser changes, a multi-byte charact
     );
     rep.run_enum(
         "token-stream-long-texts",
-        "deterministic long texts (50,000 characters: multi-byte, half-width characters the \
-normaliser rewrites, CR/LF every 997 characters) with wsconst \"\", \"DG\", \"O\"; same oracle",
+        "deterministic long texts (50,000, 65,536, 70,000 and 131,080 characters: multi-byte, \
+half-width characters the normaliser rewrites, CR/LF every 997 characters) with wsconst \"\", \
+\"DG\", \"O\", \"DGR\"; same oracle",
         false,
-        ["", "DG", "O"].into_iter().map(|ws| {
+        [("", 50_000usize), ("DG", 65_536), ("O", 70_000), ("DGR", 131_080)].into_iter().map(|(ws, n)| {
             let pool = ['火', '星', 'ｱ', 'a', '1', '。', '𠀋', 'あ', 'ｶ', 'ﾞ', '-', '猫'];
-            let text: String = (0..50_000usize)
+            let text: String = (0..n)
                 .map(|i| if i % 997 == 0 { '\n' } else if i % 997 == 996 { '\r' } else { pool[(i * 7 + i / 11) % pool.len()] })
                 .collect();
             let mut spec = ModelSpec { char_window: 2, type_window: 2, bias: -3, ..ModelSpec::default() };
